@@ -63,10 +63,47 @@ type V struct {
 	Null bool    `json:"null,omitempty"`
 	S    string  `json:"s,omitempty"` // str, time (RFC 3339 text), blob (hex), json (JSON text), docid
 	I    int64   `json:"i,omitempty"`
-	F    float64 `json:"f,omitempty"` // f64; f32 holds a value exactly representable as float32
+	F    float64 `json:"f,omitempty"`  // f64; f32 holds a value exactly representable as float32
+	NZ   bool    `json:"nz,omitempty"` // the float is negative zero (F==0 would be dropped by omitempty)
 	B    bool    `json:"b,omitempty"`
 	A    []V     `json:"a,omitempty"`
 	Arr  bool    `json:"arr,omitempty"` // distinguishes the empty array from a scalar
+}
+
+// fl is the float value (negative zero is carried by the NZ flag so that it survives the replay file).
+func (v V) fl() float64 {
+	if v.NZ {
+		return math.Copysign(0, -1)
+	}
+	return v.F
+}
+
+func mkFloat(f float64) V {
+	if f == 0 && math.Signbit(f) {
+		return V{NZ: true}
+	}
+	return V{F: f}
+}
+
+// floatText renders f as a JSON number. All styles denote exactly f (round-trip digits):
+//
+//	0  what encoding/json prints for the Go value ("-0", "5", "100", "1e+21", "123456789")
+//	1  strconv 'g' shortest ("1e+06", "1e+21")
+//	2  plain decimal without exponent ("1000000000000000000000", "0.0000001"), only for moderate magnitudes
+func floatText(f float64, style int) string {
+	switch style % 3 {
+	case 1:
+		return strconv.FormatFloat(f, 'g', -1, 64)
+	case 2:
+		if a := math.Abs(f); a == 0 || (a >= 1e-9 && a < 1e25) {
+			return strconv.FormatFloat(f, 'f', -1, 64)
+		}
+	}
+	b, err := json.Marshal(f)
+	if err != nil {
+		hx.Harnessf("floatText(%v): %v", f, err)
+	}
+	return string(b)
 }
 
 func elemKind(kind string) (elem string, nillable bool, isArr bool) {
@@ -80,14 +117,14 @@ func elemKind(kind string) (elem string, nillable bool, isArr bool) {
 }
 
 // jsonText renders v as the JSON literal used on the JSON route (and, for scalars, the GraphQL route).
-func jsonText(kind string, v V) string {
+func jsonText(kind string, v V, style int) string {
 	if v.Null {
 		return "null"
 	}
 	if ek, _, isArr := elemKind(kind); isArr {
 		parts := make([]string, len(v.A))
 		for i, e := range v.A {
-			parts[i] = jsonText(ek, e)
+			parts[i] = jsonText(ek, e, style)
 		}
 		return "[" + strings.Join(parts, ",") + "]"
 	}
@@ -98,7 +135,7 @@ func jsonText(kind string, v V) string {
 	case "int", "pint":
 		return strconv.FormatInt(v.I, 10)
 	case "f64", "f32":
-		return strconv.FormatFloat(v.F, 'g', -1, 64)
+		return floatText(v.fl(), style)
 	case "bool":
 		return strconv.FormatBool(v.B)
 	case "json":
@@ -131,28 +168,36 @@ func gqlJSONLiteral(x any) string {
 		}
 		return "[" + strings.Join(parts, ", ") + "]"
 	case json.Number:
-		return t.String()
+		// A GraphQL integer literal is a 32-bit Int without a sign of zero: JSON integers outside
+		// that range and the JSON number -0 are written as float literals.
+		txt := t.String()
+		if !strings.ContainsAny(txt, ".eE") {
+			if i, err := strconv.ParseInt(txt, 10, 64); err != nil || i < math.MinInt32 || i > math.MaxInt32 || (i == 0 && strings.HasPrefix(txt, "-")) {
+				return txt + ".0"
+			}
+		}
+		return txt
 	default:
 		b, _ := json.Marshal(t)
 		return string(b)
 	}
 }
 
-func gqlText(kind string, v V) string {
+func gqlText(kind string, v V, style int) string {
 	if v.Null {
 		return "null"
 	}
 	if ek, _, isArr := elemKind(kind); isArr {
 		parts := make([]string, len(v.A))
 		for i, e := range v.A {
-			parts[i] = gqlText(ek, e)
+			parts[i] = gqlText(ek, e, style)
 		}
 		return "[" + strings.Join(parts, ", ") + "]"
 	}
 	if kind == "json" {
 		return gqlJSONLiteral(hx.ParseJSON(v.S))
 	}
-	return jsonText(kind, v)
+	return jsonText(kind, v, style)
 }
 
 // goValue renders v for the NewDocFromMap route; typing selects between Go types the document
@@ -214,14 +259,14 @@ func goValue(kind string, v V, typing int) any {
 					out := make([]immutable.Option[float64], len(v.A))
 					for i, e := range v.A {
 						if !e.Null {
-							out[i] = immutable.Some(e.F)
+							out[i] = immutable.Some(e.fl())
 						}
 					}
 					return out
 				}
 				out := make([]float64, len(v.A))
 				for i, e := range v.A {
-					out[i] = e.F
+					out[i] = e.fl()
 				}
 				return out
 			}
@@ -248,15 +293,15 @@ func goValue(kind string, v V, typing int) any {
 		}
 		return v.I
 	case "f64":
-		if typing%2 == 1 && v.F == math.Trunc(v.F) && math.Abs(v.F) < 1<<53 {
-			return int64(v.F)
+		if typing%2 == 1 && !v.NZ && v.F == math.Trunc(v.F) && math.Abs(v.F) < 1<<53 {
+			return int64(v.F) // an integer has no negative zero: -0 is always handed over as a float
 		}
-		return v.F
+		return v.fl()
 	case "f32":
 		if typing%2 == 1 {
-			return v.F // float64 holding the exact float32 value
+			return v.fl() // float64 holding the exact float32 value
 		}
-		return float32(v.F)
+		return float32(v.fl())
 	case "bool":
 		return v.B
 	case "json":
@@ -292,11 +337,12 @@ func gqlExpressible(kind string, v V) bool {
 var (
 	strPool   = []string{"", "a", "b", "ab", "é", "日本", "a\"b", "a\\b", "line\nbreak", "tab\there", " ", "null", "0", "<&>", strings.Repeat("x", 300)}
 	intPool   = []int64{0, 1, -1, 2, 7, 100, -100, math.MaxInt32, math.MinInt32, 1 << 31, -(1 << 31) - 1, 1<<53 - 1, 1 << 53, 1<<53 + 1, math.MaxInt64, math.MinInt64}
-	f64Pool   = []float64{0, 1, -1, 1.5, 0.1, -0.1, 0.30000000000000004, 1e21, 1e-7, 123456.789, 1e6, 999999, math.MaxFloat64, math.SmallestNonzeroFloat64, 1.0 / 3, 9007199254740993, 2.5e-300}
-	f32Pool   = []float32{0, 1, -1, 1.5, 0.1, 0.25, 3.4028235e38, 1e-45, 16777216, 16777217, 1.0 / 3}
+	negZero   = math.Copysign(0, -1)
+	f64Pool   = []float64{negZero, negZero, 5, -7, 100, 1e20, 1e22, 123456789, 4294967296, 1e15, 0, 1, -1, 1.5, 0.1, -0.1, 0.30000000000000004, 1e21, 1e-7, 123456.789, 1e6, 999999, math.MaxFloat64, math.SmallestNonzeroFloat64, 1.0 / 3, 9007199254740993, 2.5e-300}
+	f32Pool   = []float32{float32(negZero), float32(negZero), 5, 100, 1e20, 123456792, 0, 1, -1, 1.5, 0.1, 0.25, 3.4028235e38, 1e-45, 16777216, 16777217, 1.0 / 3}
 	timePool  = []string{"2020-01-02T03:04:05Z", "2020-01-02T03:04:05.123456789Z", "2020-01-02T03:04:05.5Z", "2020-01-02T03:04:05.500Z", "2020-01-02T03:04:05+02:00", "2020-01-02T01:04:05-07:00", "1955-11-05T06:15:00Z", "9999-12-31T23:59:59.999999999Z", "0001-01-01T00:00:01Z", "1970-01-01T00:00:00Z", "2020-01-02T03:04:05+00:00"}
 	blobPool  = []string{"00", "ff", "00FF", "00ff", "deadbeef", "0000", "ab"}
-	jsonPool  = []string{`1`, `0`, `1.5`, `"x"`, `""`, `true`, `false`, `{}`, `[]`, `{"a":1}`, `{"b":1,"a":2}`, `{"a":2,"b":1}`, `{"a":{"b":[1,2,{"c":null}]}}`, `[1,"a",null]`, `[[],{}]`, `{"k":"v","n":null}`, `[0.5,-3,100000]`}
+	jsonPool  = []string{`-0`, `{"a":-0}`, `[-0,0,-0.0]`, `5`, `1e2`, `1e21`, `1000000000000000000000`, `{"n":4294967296,"m":-2147483649}`, `1`, `0`, `1.5`, `"x"`, `""`, `true`, `false`, `{}`, `[]`, `{"a":1}`, `{"b":1,"a":2}`, `{"a":2,"b":1}`, `{"a":{"b":[1,2,{"c":null}]}}`, `[1,"a",null]`, `[[],{}]`, `{"k":"v","n":null}`, `[0.5,-3,100000]`}
 	docidPool = []string{"bae-4de24838-2abe-536d-8b1d-14b9390d3035", "bae-2c858ec3-8dc6-5ab0-ae18-24970ed8bf24", "bae-27aad000-bdde-59d1-9b45-8d77a67948a4"}
 )
 
@@ -327,10 +373,10 @@ func genScalar(t *rapid.T, kind string) V {
 		} else {
 			f = rapid.Float64().Draw(t, "f64")
 		}
-		if math.IsNaN(f) || math.IsInf(f, 0) || f == 0 {
-			f = 0 // NaN/Inf are not JSON; -0 is excluded (see assumptions)
+		if math.IsNaN(f) || math.IsInf(f, 0) {
+			f = 0 // NaN/Inf are not JSON
 		}
-		return V{F: f}
+		return mkFloat(f)
 	case "f32":
 		var f float32
 		if rapid.Bool().Draw(t, "f32mode") {
@@ -338,10 +384,10 @@ func genScalar(t *rapid.T, kind string) V {
 		} else {
 			f = rapid.Float32().Draw(t, "f32")
 		}
-		if f != f || math.IsInf(float64(f), 0) || f == 0 {
+		if f != f || math.IsInf(float64(f), 0) {
 			f = 0
 		}
-		return V{F: float64(f)}
+		return mkFloat(float64(f))
 	case "bool":
 		return V{B: rapid.Bool().Draw(t, "bool")}
 	case "time":
@@ -408,7 +454,7 @@ func mutate(kind string, v V, how int) (V, string) {
 				w.A[k] = V{Null: true}
 				return w, "element-value-to-null"
 			}
-			if n >= 2 && jsonText(ek, w.A[0]) != jsonText(ek, w.A[n-1]) {
+			if n >= 2 && jsonText(ek, w.A[0], 0) != jsonText(ek, w.A[n-1], 0) {
 				w.A[0], w.A[n-1] = w.A[n-1], w.A[0]
 				return w, "swap-elements"
 			}
@@ -417,6 +463,10 @@ func mutate(kind string, v V, how int) (V, string) {
 		}
 	}
 	w := v
+	if kind == "f64" || kind == "f32" {
+		w.NZ = false
+		v.F = v.fl()
+	}
 	switch kind {
 	case "str":
 		w.S = v.S + "x"
@@ -531,11 +581,11 @@ func inexactFloatFields(vals []V) map[int]bool {
 		}
 		if isArr {
 			for _, e := range v.A {
-				if !e.Null && jsonMisparses(e.F) {
+				if !e.Null && jsonMisparses(e.fl()) {
 					out[i] = true
 				}
 			}
-		} else if jsonMisparses(v.F) {
+		} else if jsonMisparses(v.fl()) {
 			out[i] = true
 		}
 	}
@@ -558,6 +608,8 @@ type Route struct {
 	Order    []int  `json:"order"`    // permutation of the field indexes (key order of the input)
 	Explicit []bool `json:"explicit"` // per field: a null value is written as null (true) or the key is omitted
 	Typing   int    `json:"typing,omitempty"`
+	// FloatStyle selects the decimal text used for floats on the text routes (see floatText)
+	FloatStyle int `json:"float_style,omitempty"`
 }
 
 // DocCase is one value assignment and the routes to compare.
@@ -588,7 +640,7 @@ func drawDocCase(t *rapid.T) DocCase {
 		ident[i] = i
 	}
 	for _, k := range []string{"json", "json", "map", "gqlA", "gqlB", "colB"} {
-		r := Route{Kind: k, Order: rapid.Permutation(ident).Draw(t, "order"), Typing: rapid.IntRange(0, 11).Draw(t, "typing")}
+		r := Route{Kind: k, Order: rapid.Permutation(ident).Draw(t, "order"), Typing: rapid.IntRange(0, 11).Draw(t, "typing"), FloatStyle: rapid.IntRange(0, 2).Draw(t, "floatstyle")}
 		r.Explicit = make([]bool, len(docFields))
 		mode := rapid.IntRange(0, 3).Draw(t, "nullmode")
 		for i := range r.Explicit {
@@ -610,7 +662,7 @@ func drawDocCase(t *rapid.T) DocCase {
 		c.AvoidKnown = true
 		if rec.IsKnown(sigFloatID) || rec.IsKnown(sigFloatCommit) {
 			fix := func(v *V) {
-				if !v.Null && jsonMisparses(v.F) {
+				if !v.Null && jsonMisparses(v.fl()) {
 					v.F = 0.5
 				}
 			}
@@ -780,7 +832,7 @@ func jsonDoc(vals []V, r Route) string {
 		if v.Null && !r.explicit(i) {
 			continue
 		}
-		parts = append(parts, fmt.Sprintf("%q:%s", docFields[i].Name, jsonText(docFields[i].Kind, v)))
+		parts = append(parts, fmt.Sprintf("%q:%s", docFields[i].Name, jsonText(docFields[i].Kind, v, r.FloatStyle)))
 	}
 	return "{" + strings.Join(parts, ",") + "}"
 }
@@ -792,7 +844,7 @@ func gqlInput(vals []V, r Route) string {
 		if v.Null && !r.explicit(i) {
 			continue
 		}
-		parts = append(parts, fmt.Sprintf("%s: %s", docFields[i].Name, gqlText(docFields[i].Kind, v)))
+		parts = append(parts, fmt.Sprintf("%s: %s", docFields[i].Name, gqlText(docFields[i].Kind, v, r.FloatStyle)))
 	}
 	return "{" + strings.Join(parts, ", ") + "}"
 }
@@ -1110,6 +1162,56 @@ func runDoc(c DocCase) (out docOutcome) {
 			fail(hx.Failf("C13/doc/docid-ignores-schema-root/"+alt.what, "document %s has id %s under schema root %s and under root %s", js, base.id, e.defA.Schema.Root, alt.def.Schema.Root))
 			return out
 		}
+	}
+	return out
+}
+
+// floatLabels classifies the float content of an assignment.
+func floatLabels(c DocCase) []string {
+	nz, intLit := false, false
+	visit := func(kind string, v V) {
+		if v.Null {
+			return
+		}
+		if v.NZ {
+			nz = true
+		}
+		if !strings.ContainsAny(floatText(v.fl(), 0), ".eE") {
+			intLit = true
+		}
+	}
+	for i, f := range docFields {
+		if i >= len(c.Vals) {
+			break
+		}
+		ek, _, isArr := elemKind(f.Kind)
+		if ek != "f64" && ek != "f32" {
+			if f.Kind == "json" && !c.Vals[i].Null && strings.Contains(c.Vals[i].S, "-0") {
+				nz = true
+			}
+			continue
+		}
+		if isArr {
+			for _, e := range c.Vals[i].A {
+				visit(ek, e)
+			}
+		} else {
+			visit(ek, c.Vals[i])
+		}
+	}
+	var out []string
+	if nz {
+		out = append(out, "doc:negative-zero")
+	}
+	if intLit {
+		out = append(out, "doc:float-written-as-integer-literal")
+	}
+	styles := map[int]bool{}
+	for _, r := range c.Routes {
+		styles[r.FloatStyle%3] = true
+	}
+	if len(styles) > 1 {
+		out = append(out, "doc:float-text-differs-between-routes")
 	}
 	return out
 }
